@@ -1054,10 +1054,73 @@ func c12In(nets []*net.IPNet, ip net.IP) int {
 
 // register performs one request. It returns nil when the registrar answered
 // with an error (then nothing may have been forwarded) or when the run must stop.
+// unidirectional sends the same client's wrapper through the unidirectional entry point (API / DNS
+// registrars without a response channel). The client derives everything itself there, so whatever
+// it put into registration_response / reg_resp_bytes / reg_resp_signature must be gone from what
+// the stations are told, whatever source the wrapper claims.
+func (w *c12World) unidirectional(q *c12Req) bool {
+	r := w.r
+	tp := r.Tape
+	saveForge, saveSrc := q.forge, q.wsrc
+	defer func() { q.forge, q.wsrc = saveForge, saveSrc }()
+	q.forge = 1 + tp.Choose("uni-forge", 3)
+	claim := tp.Choose("uni-claimed-source", 4) // 0 none, 1 API, 2 DNS, 3 a station's prescan relay
+	c2sw := q.wrapper(true)
+	switch claim {
+	case 0:
+		c2sw.RegistrationSource = nil
+	case 1:
+		c2sw.RegistrationSource = pb.RegistrationSource_API.Enum()
+	case 2:
+		c2sw.RegistrationSource = pb.RegistrationSource_DNS.Enum()
+	default:
+		c2sw.RegistrationSource = pb.RegistrationSource_DetectorPrescan.Enum()
+	}
+	method := []pb.RegistrationSource{pb.RegistrationSource_API, pb.RegistrationSource_DNS}[tp.Choose("uni-method", 2)]
+	before := len(w.sock.msgs)
+	var err error
+	pan := ""
+	func() {
+		defer func() {
+			if p := recover(); p != nil {
+				pan = fmt.Sprintf("%v at %s", p, c12Stack())
+			}
+		}()
+		err = w.p.RegisterUnidirectional(c2sw, method, q.clientIP)
+	}()
+	msgs := append([][]byte(nil), w.sock.msgs[before:]...)
+	w.sock.msgs = w.sock.msgs[:before]
+	r.Probe("unidirectional_request")
+	if !w.quiet {
+		r.Logf("  unidirectional %s forge=%d claimed-source=%d -> err=%v forwarded=%d", method, q.forge, claim, err, len(msgs))
+	}
+	if pan != "" {
+		return !r.Fail("C12/panic/unidirectional", "req%d: RegisterUnidirectional panicked: %s", q.idx, pan)
+	}
+	for _, m := range msgs {
+		var fwd pb.C2SWrapper
+		if e := proto.Unmarshal(m, &fwd); e != nil {
+			return !r.Fail("C12/forwarded-unparseable", "req%d (unidirectional): %v", q.idx, e)
+		}
+		if rr := fwd.GetRegistrationResponse(); rr != nil {
+			return !r.Fail("C12/forged/response-forwarded/unidirectional", "req%d: a unidirectional registration (method %s, wrapper claims source %v) was forwarded to the stations WITH the registration_response the client supplied {%s}: a station adopts its phantom, port and parameters", q.idx, method, c2sw.GetRegistrationSource(), c12RespStr(rr, q.tt))
+		}
+		if !w.cfg.auth && (len(fwd.GetRegRespBytes()) > 0 || len(fwd.GetRegRespSignature()) > 0) {
+			return !r.Fail("C12/forged/signature-fields-forwarded", "req%d (unidirectional): unauthenticated registrar forwarded reg_resp_bytes (%d bytes) / reg_resp_signature (%d bytes)", q.idx, len(fwd.GetRegRespBytes()), len(fwd.GetRegRespSignature()))
+		}
+	}
+	return true
+}
+
 func (w *c12World) register(q *c12Req) *c12Outcome {
 	r := w.r
 	if !w.quiet {
 		r.Logf("%s", q)
+	}
+	if !q.sendFault && r.Tape.Prob("also-unidirectional", 1, 4) {
+		if !w.unidirectional(q) {
+			return nil
+		}
 	}
 	keys, kerr := core.GenSharedKeys(uint(q.libver), q.secret, q.tt)
 	// the phantoms the seed selects, computed by the harness with the same selector before the registrar runs
